@@ -1011,6 +1011,7 @@ func (r *nfRun) sender(pi int, p nfProg, wg *sync.WaitGroup) {
 		}
 		r.ev(obj{"e": "call", "g": g, "k": k, "from": p.Node, "to": m.To, "m": content})
 		pan := ""
+		t0 := time.Now()
 		func() {
 			defer func() {
 				if x := recover(); x != nil {
@@ -1024,6 +1025,9 @@ func (r *nfRun) sender(pi int, p nfProg, wg *sync.WaitGroup) {
 			n.parties.Send(uint8(m.Ty), topic, data, to...)
 		}()
 		r.ev(obj{"e": "ret", "g": g, "k": k, "panic": pan})
+		if p.Flood > 0 && time.Since(t0) > 5*time.Second {
+			return // the queue is full and the call waited for the enqueue timeout: nothing more to learn from further calls
+		}
 		if pan != "" {
 			// an unrecovered panic would have killed the process; the deliveries this call did not enqueue are not expected
 			return
